@@ -4,6 +4,7 @@ import (
 	"fmt"
 	"os"
 	"runtime/pprof"
+	"strconv"
 	"time"
 
 	"verif/harness/internal/findings"
@@ -26,6 +27,9 @@ func main() {
 		if dur, err := time.ParseDuration(d + "s"); err == nil {
 			r.Deadline = time.Now().Add(dur)
 		}
+	}
+	if at, err := strconv.ParseInt(os.Getenv("VERIF_DEADLINE_AT"), 10, 64); err == nil && at > 0 {
+		r.Deadline = time.Unix(at, 0) // shard child: the parent's absolute deadline
 	}
 	if pf := os.Getenv("VERIF_CPUPROFILE"); pf != "" {
 		f, _ := os.Create(pf)
